@@ -102,6 +102,25 @@ CHECKS["C04"] = (
     "DESIGN.md section 3, C04",
 )
 
+CHECKS["C09"] = (
+    "differential property-based testing (zone context vs naive evaluation) with an independently written local-time mapping oracle, inputs targeted at DST gaps and folds of all IANA zones",
+    "For zones drawn from all 596 chrono-tz zones, years 1900-2100 and their actual offset transitions, instants within hours, minutes and seconds of a transition (given in another zone) are evaluated with the zone context and, at their wall-clock time, without location; states, next changes and intervals must agree, every returned instant must equal the harness' own mapping (later instant when ambiguous, transition instant inside a gap), and bounds must not go backwards.",
+    "Trusted: chrono-tz offset lookup; NoLocation evaluation as the reference side. Calls over 20 000 day schedules are skipped and counted.",
+    "DESIGN.md section 3, C09",
+)
+CHECKS["C10"] = (
+    "exhaustive enumeration (differential against the source data files read by an independent parser) + generated selector checks",
+    "All 115 countries x {public, school}: iteration, count, membership on every date 1990-2085 and every listed date, first_after; all 676 two-letter codes in 7 spellings; PH / SH on every date 1998-2077 for every country; generated shifted-PH checks. The finite domain of the property is covered completely on every run.",
+    "Trusted: the data files in /repo/opening-hours/data as source of truth, read at run time from the working tree.",
+    "DESIGN.md section 3, C10",
+)
+CHECKS["C11"] = (
+    "property-based testing with a physical validity oracle (ordering around an independently computed solar noon) and boundary-value acceptance testing",
+    "Documented default event times without coordinates (any zone, any date); for coordinates within 60 degrees of latitude the four events read from schedules must be ordered around a solar noon computed by the harness from longitude and the equation of time, with stated tolerances; Coordinates::new acceptance on boundary and arbitrary f64 values, and evaluation of every accepted pair (poles, antimeridian).",
+    "Trusted: the solar-noon approximation (error < 1.5 min against tolerances of 10 and 30 min) and chrono-tz offsets. Days on which the inferred zone changes its offset are skipped and counted.",
+    "DESIGN.md section 3, C11",
+)
+
 NOT_YET = {}
 
 def main():
